@@ -762,6 +762,68 @@ func (e *Engine) structural(fn *ssa.Function, dir string) *Obligation {
 		}
 		o.Status = "proved"
 		o.Detail = "no other function of the package calls " + f[1]
+	case len(f) >= 1 && f[0] == "blocks-only-on":
+		// `structure blocks-only-on a,b`: the only operations in the function (closures included) that can block are
+		// calls whose name contains one of the listed fragments (the lock and the errgroup the contract talks about):
+		// no other Wait / Lock / Acquire / Sleep and no channel operation — each could leave a path waiting for an event
+		// that an error path never produces, and the error-propagation obligations assume every path returns
+		var allowed []string
+		for _, part := range f[1:] {
+			for _, n := range strings.Split(part, ",") {
+				if n = strings.TrimSpace(n); n != "" {
+					allowed = append(allowed, n)
+				}
+			}
+		}
+		blocking := []string{".(*WaitGroup).Wait", ".(*Cond).Wait", ".(*Mutex).Lock", ".(*RWMutex).Lock", ".(*RWMutex).RLock",
+			".(*Group).Wait", "time.Sleep", ".(*Weighted).Acquire", ".(*Once).Do"}
+		var scanB func(g *ssa.Function) string
+		scanB = func(g *ssa.Function) string {
+			for _, b := range g.Blocks {
+				for _, in := range b.Instrs {
+					switch x := in.(type) {
+					case *ssa.Send, *ssa.Select:
+						return "channel operation at " + e.prog.Fset.Position(in.Pos()).String()
+					case *ssa.UnOp:
+						if x.Op == token.ARROW {
+							return "channel receive at " + e.prog.Fset.Position(in.Pos()).String()
+						}
+					case ssa.CallInstruction:
+						name := calleeName(x.Common())
+						isBlocking := false
+						for _, bp := range blocking {
+							if strings.HasSuffix(name, bp) || strings.Contains(name, bp) {
+								isBlocking = true
+							}
+						}
+						if !isBlocking {
+							continue
+						}
+						ok := false
+						for _, a := range allowed {
+							if strings.Contains(name, a) {
+								ok = true
+							}
+						}
+						if !ok {
+							return "call of " + name + " (can block; not among the synchronisation the contract allows) at " + e.prog.Fset.Position(in.Pos()).String()
+						}
+					}
+				}
+			}
+			for _, a := range g.AnonFuncs {
+				if r := scanB(a); r != "" {
+					return r
+				}
+			}
+			return ""
+		}
+		if r := scanB(fn); r != "" {
+			o.Detail = r
+			return o
+		}
+		o.Status = "proved"
+		o.Detail = "blocks only on " + strings.Join(allowed, ", ")
 	case len(f) == 1 && f[0] == "no-channel-ops":
 		// the function synchronises only through the mutex / errgroup named in its contract: no channel send,
 		// receive, select or close — each of which could block a path that the error-propagation obligations assume returns
